@@ -1,1 +1,196 @@
 // Kani contract harnesses for /repo/arrow-buffer/src/buffer/scalar.rs (child module: sees private items via super::)
+//
+// C09/C01: a `ScalarBuffer<T>` handed out by a checked constructor is a T-aligned window of whole
+// elements inside its byte buffer (so `Deref<[T]>` — an unchecked from_raw_parts — is in bounds and
+// aligned). Rejections are the constructor's own panics (may-reject harnesses).
+use super::*;
+
+// Contract (C09): `ScalarBuffer::<T>::new(buffer, offset, len)` (offset/len in elements, ARBITRARY
+// usize values) over a byte buffer that is a region allocated for [T; 4] advanced by `mis` bytes
+// (symbolic, 0..=4*size): it returns  <=>  offset*size and len*size do not overflow, the byte window
+// [offset*size, offset*size + len*size) lies inside the buffer, and the window start is T-aligned.
+// On return: len() = len and element i is the element of the original array at that position.
+//   *_rejects_* (may-reject): returns => condition + view;   *_accepts_*: condition => no panic + view.
+fn scalar_new_case<T: ArrowNativeType + kani::Arbitrary + PartialEq, const ASSUME_OK: bool>() {
+    let sz = std::mem::size_of::<T>();
+    let al = std::mem::align_of::<T>();
+    let data: [T; 4] = kani::any();
+    let base = Buffer::from_vec(data.to_vec());
+    let mis: usize = kani::any();
+    kani::assume(mis <= 4 * sz);
+    let buf = base.slice(mis);
+    let (o, l): (usize, usize) = (kani::any(), kani::any());
+    let start = o as u128 * sz as u128; // sz is a constant
+    let bytes = l as u128 * sz as u128;
+    let ok = start <= usize::MAX as u128
+        && bytes <= usize::MAX as u128
+        && start + bytes <= (4 * sz - mis) as u128
+        && (mis as u128 + start) % al as u128 == 0;
+    if ASSUME_OK {
+        kani::assume(ok);
+    }
+    let s = ScalarBuffer::<T>::new(buf, o, l);
+    assert!(ok);
+    assert!(s.len() == l && s.is_empty() == (l == 0) && s.inner().len() == l * sz);
+    assert!(base.len() == 4 * sz); // parent untouched
+    kani::cover!(l == 4);
+    kani::cover!(mis == sz && o == 1 && l == 2);
+    kani::cover!(l == 0 && mis == 4 * sz);
+    let i: usize = kani::any();
+    kani::assume(i < l);
+    assert!(s[i] == data[(mis + o * sz) / sz + i]);
+}
+// @unit name=scalar_new_rejects_i32 props=C09,C01 kind=bounded bound=16-byte_region_all_usize_offset_len fns=ScalarBuffer<i32>::new,ScalarBuffer::from tier=quick mayreject=1 mem=3 timeout=300
+#[kani::proof]
+#[kani::unwind(8)]
+fn scalar_new_rejects_i32() {
+    scalar_new_case::<i32, false>()
+}
+// @unit name=scalar_new_accepts_i32 props=C09 kind=bounded bound=16-byte_region fns=ScalarBuffer<i32>::new,ScalarBuffer::from tier=quick mem=3 timeout=300
+#[kani::proof]
+#[kani::unwind(8)]
+fn scalar_new_accepts_i32() {
+    scalar_new_case::<i32, true>()
+}
+// @unit name=scalar_new_rejects_i64 props=C09,C01 kind=bounded bound=32-byte_region_all_usize_offset_len fns=ScalarBuffer<i64>::new,ScalarBuffer::from tier=quick mayreject=1 mem=3 timeout=300
+#[kani::proof]
+#[kani::unwind(8)]
+fn scalar_new_rejects_i64() {
+    scalar_new_case::<i64, false>()
+}
+// @unit name=scalar_new_accepts_i64 props=C09 kind=bounded bound=32-byte_region fns=ScalarBuffer<i64>::new,ScalarBuffer::from tier=quick mem=3 timeout=300
+#[kani::proof]
+#[kani::unwind(8)]
+fn scalar_new_accepts_i64() {
+    scalar_new_case::<i64, true>()
+}
+// @unit name=scalar_new_rejects_u8 props=C09,C01 kind=bounded bound=4-byte_region_all_usize_offset_len fns=ScalarBuffer<u8>::new,ScalarBuffer::from tier=quick mayreject=1 mem=3 timeout=300
+#[kani::proof]
+#[kani::unwind(8)]
+fn scalar_new_rejects_u8() {
+    scalar_new_case::<u8, false>()
+}
+
+// Contract (C09): `From<Buffer> for ScalarBuffer<i32>` accepts exactly the 4-byte aligned buffers —
+// also for externally owned memory (custom allocation) — and then views len/4 whole elements.
+// @unit name=scalar_from_buffer_alignment props=C09,C01 kind=bounded bound=16-byte_regions fns=ScalarBuffer<i32>::from mayreject=1 tier=quick mem=3 timeout=300
+#[kani::proof]
+#[kani::unwind(8)]
+fn scalar_from_buffer_alignment() {
+    #[repr(align(8))]
+    struct Ext([u8; 16]);
+    let mis: usize = kani::any();
+    kani::assume(mis <= 16);
+    let custom: bool = kani::any();
+    let raw: [u8; 16] = kani::any();
+    let buf = if custom {
+        let owner = std::sync::Arc::new(Ext(raw));
+        let p = std::ptr::NonNull::new(owner.0.as_ptr() as *mut u8).unwrap();
+        unsafe { Buffer::from_custom_allocation(p, 16, owner) }.slice(mis)
+    } else {
+        let words: [i32; 4] = unsafe { std::mem::transmute(raw) };
+        Buffer::from_vec(words.to_vec()).slice(mis)
+    };
+    let s = ScalarBuffer::<i32>::from(buf);
+    assert!(mis % 4 == 0);
+    assert!(s.len() == (16 - mis) / 4);
+    kani::cover!(custom && mis == 8);
+    kani::cover!(!custom && mis == 4);
+    kani::cover!(mis == 16);
+    let i: usize = kani::any();
+    kani::assume(i < s.len());
+    let at = mis + 4 * i;
+    assert!(s[i] == i32::from_ne_bytes([raw[at], raw[at + 1], raw[at + 2], raw[at + 3]]));
+}
+// accept direction: aligned => no panic
+// @unit name=scalar_from_buffer_aligned_accepts props=C09 kind=bounded bound=16-byte_regions fns=ScalarBuffer<i32>::from tier=quick mem=3 timeout=300
+#[kani::proof]
+#[kani::unwind(8)]
+fn scalar_from_buffer_aligned_accepts() {
+    let words: [i32; 4] = kani::any();
+    let k: usize = kani::any();
+    kani::assume(k <= 4);
+    let s = ScalarBuffer::<i32>::from(Buffer::from_vec(words.to_vec()).slice(4 * k));
+    assert!(s.len() == 4 - k);
+    kani::cover!(k == 4);
+    kani::cover!(k == 1);
+}
+
+// Contract (C09/C01): `ScalarBuffer::slice(offset, len)` with ARBITRARY usize arguments on a buffer
+// of 4 elements: returns => offset + len <= 4 (no wrap-around) and the result views exactly
+// elements [offset, offset+len) and shares memory with the parent, which is unchanged;
+// in-range arguments never panic (accept harness). `ptr_eq` <=> same window.
+fn scalar_slice_case<const ASSUME_IN_RANGE: bool>() {
+    let data: [i32; 4] = kani::any();
+    let sb = ScalarBuffer::<i32>::from(data.to_vec());
+    assert!(sb.len() == 4);
+    let (o, l): (usize, usize) = (kani::any(), kani::any());
+    if ASSUME_IN_RANGE {
+        kani::assume(o <= 4 && l <= 4 - o);
+    }
+    let s = sb.slice(o, l);
+    assert!(o as u128 + l as u128 <= 4);
+    assert!(s.len() == l);
+    assert!(s.ptr_eq(&sb) == (o == 0 && l == 4));
+    assert!(s.inner().data_ptr() == sb.inner().data_ptr());
+    kani::cover!(o == 4 && l == 0);
+    kani::cover!(o == 1 && l == 3);
+    let i: usize = kani::any();
+    kani::assume(i < l);
+    assert!(s[i] == data[o + i] && sb[o + i] == data[o + i]);
+}
+// @unit name=scalar_slice_rejects props=C09,C01 kind=bounded bound=4_elements_all_usize_offset_len fns=ScalarBuffer::slice,ScalarBuffer::new,ScalarBuffer::ptr_eq mayreject=1 tier=quick mem=3 timeout=300
+#[kani::proof]
+#[kani::unwind(8)]
+fn scalar_slice_rejects() {
+    scalar_slice_case::<false>()
+}
+// @unit name=scalar_slice_accepts props=C09 kind=bounded bound=4_elements fns=ScalarBuffer::slice,ScalarBuffer::new tier=quick mem=3 timeout=300
+#[kani::proof]
+#[kani::unwind(8)]
+fn scalar_slice_accepts() {
+    scalar_slice_case::<true>()
+}
+
+// Contract (C16): `Vec::<T>::from(ScalarBuffer<T>)` yields the viewed elements. It reuses the
+// allocation only when the buffer is uniquely owned and unsliced; otherwise it copies: a surviving
+// clone / parent keeps reading the original elements after the returned Vec is overwritten.
+// `From<Vec<T>>` / `From<ScalarBuffer<T>> for Buffer` / `into_inner` preserve the bytes.
+// @unit name=scalar_into_vec_cow props=C16,C02 kind=bounded bound=3_elements fns=Vec<i32>::from<ScalarBuffer>,ScalarBuffer::from<Vec>,Buffer::into_vec,Buffer::typed_data,ScalarBuffer::into_inner tier=quick mem=3 timeout=400
+#[kani::proof]
+#[kani::unwind(8)]
+fn scalar_into_vec_cow() {
+    let data: [i32; 3] = kani::any();
+    let sb = ScalarBuffer::<i32>::from(data.to_vec());
+    let shared: bool = kani::any();
+    let o: usize = kani::any();
+    kani::assume(o <= 3);
+    let keep = if shared { Some(sb.clone()) } else { None };
+    let operand = if o > 0 {
+        let s = sb.slice(o, 3 - o);
+        if kani::any() {
+            drop(sb); // unique but offset: still a copy
+        }
+        s
+    } else {
+        sb
+    };
+    let mut v: Vec<i32> = operand.into();
+    assert!(v.len() == 3 - o);
+    let i: usize = kani::any();
+    kani::assume(i < 3 - o);
+    assert!(v[i] == data[o + i]);
+    let w: i32 = kani::any();
+    v[i] = w;
+    v.push(w);
+    if let Some(k) = &keep {
+        let j: usize = kani::any();
+        kani::assume(j < 3);
+        assert!(k.len() == 3 && k[j] == data[j]);
+        let b: Buffer = k.clone().into();
+        assert!(b.len() == 12);
+    }
+    kani::cover!(shared && o == 0);
+    kani::cover!(!shared && o == 0);
+    kani::cover!(!shared && o == 2);
+}
